@@ -1,5 +1,6 @@
 """C20 — results depend only on current inputs: no mutation, aliasing or stale state."""
 import copy
+import warnings
 import numpy as np
 import oqupy
 
@@ -546,8 +547,18 @@ def run(chk):
         ch.add_site_dissipation(2, oqupy.operators.sigma("-"), gamma=0.3)
         ch.add_nn_hamiltonian(0, 0.5 * SZ, SZ)
         ch.add_nn_hamiltonian(1, 0.3 * SX, SX)
+        # a time-independent system with Lindblad terms whose rates are not one
+        sl = oqupy.System(H, gammas=[0.3, 2.5], lindblad_operators=[oqupy.operators.sigma("-"), 0.5 * SZ + 0.2 * SX])
         return {"bath": bb, "td": td, "mfs": mfs, "ps": ps, "pt": pt, "sys": oqupy.System(H), "par": par,
-                "par2": oqupy.TempoParameters(dt=0.05, epsrel=1e-7, dkmax=2), "chain": ch}
+                "par2": oqupy.TempoParameters(dt=0.05, epsrel=1e-7, dkmax=2), "chain": ch, "sysL": sl}
+
+    def fingerprint(ob):
+        """the values a caller can read off the shared parameter objects (they must never change through library calls)"""
+        out = [np.array(x) for x in ob["chain"].nn_liouvillians] + [np.array(x) for x in ob["chain"].site_liouvillians]
+        for k_ in ("sys", "sysL"):
+            out += [np.array(ob[k_].hamiltonian)] + [np.array(x) for x in ob[k_].lindblad_operators] + [np.array(ob[k_].gammas, dtype=complex)]
+        out += [np.array([ob["par"].dt, ob["par"].epsrel, ob["par2"].dt, ob["par2"].epsrel]), np.array(ob["bath"].coupling_operator), np.array(ob["bath"].unitary_transform)]
+        return out
 
     def job_run(name, ob):
         st = lambda d: np.array(d.states).reshape(-1)
@@ -586,11 +597,22 @@ def run(chk):
             return np.concatenate([np.array(x).reshape(-1) for x in ob["chain"].get_nn_full_liouvillians()])
         if name == "tempo-plain":
             return st(oqupy.Tempo(ob["sys"], ob["bath"], ob["par"], rho, 0.0).compute(0.3, progress_type="silent"))
+        if name == "guess":
+            with warnings.catch_warnings():
+                warnings.simplefilter("ignore")
+                g_ = oqupy.guess_tempo_parameters(ob["bath"], 0.0, 0.5, ob["sysL"], 0.05)
+            return np.array([g_.dt, float(g_.dkmax), g_.epsrel])
+        if name == "tempo-guessed":
+            with warnings.catch_warnings():
+                warnings.simplefilter("ignore")
+                return st(oqupy.tempo_compute(ob["sysL"], ob["bath"], rho, 0.0, 0.3, tolerance=0.05, progress_type="silent"))
+        if name == "dynamics-lindblad":
+            return st(oqupy.compute_dynamics(ob["sysL"], initial_state=rho, dt=0.1, num_steps=3, progress_type="silent"))
         raise KeyError(name)
 
     JOBS = ["tempo@0.0", "tempo@1.5", "tempo@-0.7", "tempo-dt2@0.0", "tempo-dt2@1.5", "dynamics@0.0", "dynamics@1.5", "dynamics@-0.7",
             "dynamics-nosubdiv@0.0", "dynamics-nosubdiv@1.5", "correlations@0.0", "correlations@1.5", "meanfield@0.0", "meanfield@0.4",
-            "gradient#0", "gradient#1", "tempo-plain", "tebd#1", "tebd#2", "chain-generators"]
+            "gradient#0", "gradient#1", "tempo-plain", "tebd#1", "tebd#2", "chain-generators", "guess", "tempo-guessed", "dynamics-lindblad"]
     fresh_results = {}
     for it in range(5 if thorough else 2):
         shared = quiet(mk_objs)
@@ -599,16 +621,18 @@ def run(chk):
         fam = rng.choice(["tempo@", "dynamics@", "correlations@", "dynamics-nosubdiv@"])
         pair = [j for j in JOBS if j.startswith(fam)][:2]
         rng.shuffle(pair)
-        seq = pair + rng.choice([["tebd#1", "tebd#1"], ["chain-generators", "tebd#2"], ["tebd#2", "chain-generators"]]) + seq
-        chain_snapshot = [np.array(x).copy() for x in shared["chain"].nn_liouvillians] + [np.array(x).copy() for x in shared["chain"].site_liouvillians]
+        seq = pair + rng.choice([["tebd#1", "tebd#1"], ["chain-generators", "tebd#2"], ["tebd#2", "chain-generators"]]) \
+            + rng.choice([["guess", "dynamics-lindblad"], ["tempo-guessed", "guess", "dynamics-lindblad"]]) + seq
+        chain_snapshot = [x.copy() for x in fingerprint(shared)]
         for pos, name in enumerate(seq):
             info = {"kind": "shared-pool", "sequence": seq[:pos + 1], "job": name}
             try:
                 got = quiet(job_run, name, shared)
-                now = [np.array(x) for x in shared["chain"].nn_liouvillians] + [np.array(x) for x in shared["chain"].site_liouvillians]
-                if any(not np.array_equal(a_, b_) for a_, b_ in zip(chain_snapshot, now)):
-                    chk.fail("input-mutated", f"job {name} modified the SystemChain it was given (its stored generators changed by "
-                             f"{max(np.abs(a_ - b_).max() for a_, b_ in zip(chain_snapshot, now)):.3g})", info)
+                now = fingerprint(shared)
+                if any(a_.shape != b_.shape or not np.array_equal(a_, b_) for a_, b_ in zip(chain_snapshot, now)):
+                    chk.fail("input-mutated", f"job {name} modified a parameter object it was given (stored generators of the SystemChain, Hamiltonian / "
+                             f"Lindblad operators / rates of a System, parameters, coupling operator: changed by "
+                             f"{max(np.abs(a_ - b_).max() for a_, b_ in zip(chain_snapshot, now) if a_.shape == b_.shape and a_.size):.3g})", info)
                     chain_snapshot = [x.copy() for x in now]
                 if name not in fresh_results:
                     fresh_results[name] = quiet(job_run, name, quiet(mk_objs))
